@@ -195,13 +195,7 @@ func selCoq(s string) string {
 }
 func (c *CConf) Coq() string {
 	auth := map[string]string{"guest": "AuGuest", "plain1": "AuPlain1", "byround": "AuByRound"}[c.Auth]
-	kind := "(TTcp false)"
-	if c.Kind == "memtls" {
-		kind = "(TTcp true)"
-	}
-	if c.Kind == "inproc" {
-		kind = "TInproc"
-	}
+	kind := coqKind(c.Kind)
 	if len(c.Builder) > 0 {
 		ops := make([]string, len(c.Builder))
 		for i, o := range c.Builder {
